@@ -1,6 +1,7 @@
 import CkptVerif.Model.Online
 import CkptVerif.Model.Mixed
 import CkptVerif.Model.Revolve
+import CkptVerif.Spec.Configs
 /-!
 # Line-protocol driver over the executable model and the spec monitor
 
@@ -89,8 +90,6 @@ def parseLine (s : String) : Line :=
 def parseTraj : String → Option Traj
   | "maximum" => some .maximum | "revolve" => some .revolve | _ => none
 
-def ceilDiv (a b : Nat) : Nat := (a + b - 1) / b
-
 /-- Tables shared by all requests of one driver run (cell values do not depend on the table
 size, so one table of the largest size requested so far serves every request). -/
 structure Tabs where
@@ -125,55 +124,33 @@ def parseCosts : List String → Option Costs
   | _ => none
 
 def parseClass (T : Tabs) : List String → Option ClassSpec
-  | ["SM"] => some ⟨.ok singleMemorySched,
-      fun N => { N := N, ram := some 0, disk := some 0, passes := none, keepsAllDeps := true, online := true }, true⟩
+  | ["SM"] => some ⟨.ok singleMemorySched, cfgSingleMemory, true⟩
   | ["SD", mv] => do
     let mv ← s2b mv
-    pure ⟨.ok (singleDiskSched mv),
-      fun N => { N := N, ram := some 0, disk := some N, passes := if mv then some 1 else none,
-                 keepsAllDeps := false, online := true }, true⟩
-  | ["NO"] => some ⟨.ok noneSched,
-      fun N => { N := N, ram := some 0, disk := some 0, passes := some 0, keepsAllDeps := false, online := true }, true⟩
+    pure ⟨.ok (singleDiskSched mv), cfgSingleDisk mv, true⟩
+  | ["NO"] => some ⟨.ok noneSched, cfgNone, true⟩
   | ["TL", p, b, st, traj] => do
     let p ← p.toNat?; let b ← b.toNat?; let st ← parseSt st; let traj ← parseTraj traj
-    pure ⟨twoLevelSched p b st traj,
-      fun N => { N := N,
-                 ram := if st = .ram then some b else some 0,
-                 disk := if st = .ram then some (ceilDiv N p) else some (ceilDiv N p + b),
-                 passes := none, keepsAllDeps := false, online := true },
-      decide (1 ≤ p) && (st = .ram || st = .disk)⟩
+    pure ⟨twoLevelSched p b st traj, cfgTwoLevel p b st, validTwoLevel p st⟩
   | ["MS", n, ram, disk, traj] => do
     let n ← n.toNat?; let ram ← ram.toNat?; let disk ← disk.toNat?; let traj ← parseTraj traj
-    pure ⟨multistageSched n ram disk traj,
-      fun N => { N := N, ram := some ram, disk := some disk, passes := some 1, keepsAllDeps := false, online := false },
-      decide (1 ≤ n) && (decide (n = 1) || decide (1 ≤ ram + disk))⟩
+    pure ⟨multistageSched n ram disk traj, cfgMultistage ram disk, validMultistage n ram disk⟩
   | ["MX", n, s, st, numba] => do
     let n ← n.toNat?; let s ← s.toNat?; let st ← parseSt st; let numba ← s2b numba
     let plan := if numba then tabPlanner T else memoPlanner T
-    pure ⟨mixedSched plan n s st,
-      fun N => { N := N, ram := if st = .ram then some s else some 0, disk := if st = .disk then some s else some 0,
-                 passes := some 1, keepsAllDeps := false, online := false },
-      decide (1 ≤ n) && decide (min 1 (n - 1) ≤ s) && (st = .ram || st = .disk)⟩
+    pure ⟨mixedSched plan n s st, cfgMixed s st, validMixed n s st⟩
   | "RV" :: n :: cm :: costs => do
     let n ← n.toNat?; let cm ← cm.toNat?; let c ← parseCosts costs
-    pure ⟨revolveSched n cm c,
-      fun N => { N := N, ram := some cm, disk := some 0, passes := some 1, keepsAllDeps := false, online := false },
-      decide (1 ≤ n) && decide (1 ≤ cm) && decide (0 < c.uf) && decide (0 < c.ub)⟩
+    pure ⟨revolveSched n cm c, cfgRevolve cm, validRevolve n cm c.uf c.ub⟩
   | "DR" :: n :: cm :: costs => do
     let n ← n.toNat?; let cm ← cm.toNat?; let c ← parseCosts costs
-    pure ⟨diskRevolveSched n cm c,
-      fun N => { N := N, ram := some cm, disk := none, passes := some 1, keepsAllDeps := false, online := false },
-      decide (1 ≤ n) && decide (1 ≤ cm) && decide (0 < c.uf) && decide (0 < c.ub)⟩
+    pure ⟨diskRevolveSched n cm c, cfgDiskRevolve cm, validRevolve n cm c.uf c.ub⟩
   | "PD" :: n :: cm :: costs => do
     let n ← n.toNat?; let cm ← cm.toNat?; let c ← parseCosts costs
-    pure ⟨periodicSched n cm c,
-      fun N => { N := N, ram := some cm, disk := none, passes := some 1, keepsAllDeps := false, online := false },
-      decide (1 ≤ n) && decide (1 ≤ cm) && decide (0 < c.uf) && decide (0 < c.ub)⟩
+    pure ⟨periodicSched n cm c, cfgDiskRevolve cm, validRevolve n cm c.uf c.ub⟩
   | "HR" :: n :: c0 :: c1 :: costs => do
     let n ← n.toNat?; let c0 ← c0.toNat?; let c1 ← c1.toNat?; let c ← parseCosts costs
-    pure ⟨hrevolveSched n c0 c1 c,
-      fun N => { N := N, ram := some c0, disk := some c1, passes := some 1, keepsAllDeps := false, online := false },
-      decide (1 ≤ n) && decide (1 ≤ c0) && decide (0 < c.uf) && decide (0 < c.ub)⟩
+    pure ⟨hrevolveSched n c0 c1 c, cfgHRevolve c0 c1, validRevolve n c0 c.uf c.ub⟩
   | _ => none
 
 def tagName : Tag → String
